@@ -51,7 +51,6 @@ theorem inv_ctl_set {w : WM} {iss : List Handle} (hi : Inv ⟨w, iss⟩) (d n : 
     live := ⟨hi.live.live_in, hi.live.row_live⟩
     pool := ⟨hi.pool.vals_nodup, hi.pool.insts_nodup, hi.pool.inst_lt, hi.pool.inst_sid⟩
     shared := hi.shared
-    closed := hi.closed
     depsB := hi.depsB
     locsCover := hi.locsCover
     bufLe := hle
